@@ -342,6 +342,9 @@ def facts_of(R):
     pin = find_fn(pipe, 'pipe_in', 'fact:pipe_in')
     F['pipe_in_stops_on_none'] = bool(re.search(r'Poll::Ready\(None\)\s*=>\s*return\s+false', pin))
     F['pipe_in_pending_returns_true'] = bool(re.search(r'Poll::Pending\s*=>\s*return\s+true', pin))
+    F['pipe_in_unbounded_loop'] = count(r'\bloop\s*\{', pin) == 1 and count(r'\bfor\s+\w+\s+in\b|\bwhile\b', pin) == 0
+    F['pipe_core_weak'] = bool(re.search(r'let\s+stream_core\s*=\s*Arc::downgrade\(&stream_core\)\s*;', pf)) and bool(re.search(r'let\s+stream_core\s*=\s*stream_core\.upgrade\(\)\s*;', pf)) and count(r'Arc::clone\(&output_stream\.core\)', pf) == 1
+    F['pipe_unbounded_loop'] = count(r'\bloop\s*\{', pf) == 1 and count(r'\bfor\s+\w+\s+in\b|\bwhile\b', pf) == 0
     F['pipe_in_weak_only'] = count(r'Arc::clone\(&desync\)', pin) == 0
     return F
 
